@@ -382,6 +382,8 @@ func specC06() *propertySpec {
 			{"C06-R8", "written-whole-and-in-order: every part of the fail file is written through one sink to the temporary file, a buffered sink is flushed before the file is closed and renamed; write errors stop the save (shared with C16-R1/R2/R3)", func(r *Run) { ruleC16R1(r); ruleC16R2(r); ruleC16R3(r) }},
 			{"C06-R9", "replay-reads-what-was-saved: the next run feeds the saved words to the property one per draw, masked like the recording run (shared with C04-R3)", func(r *Run) { ruleC04R3(r); ruleC04R3buf(r) }},
 			{"C06-R10", "same-generator-in-the-next-run: the replay of the fail file draws from freshly constructed generators, the saved buffer was minimised against generators every earlier test case and shrink attempt of the failing run had drawn from: same drawn values only if no draw stores through or hands out generator-owned storage (shared with C15-R3)", ruleC15R3},
+			{"C06-R11", "the-saved-case-replays-as-it-was-judged: what is written to the fail file is the pruned recording; the next run draws the same values and fails the same way only if pruning is replay-neutral (shared with C04-R4.4/R4.5/R4.6/R4.7/R4.8/R5, C03-R2)", rulePruneBundle},
+			{"C06-R12", "the-next-run-builds-the-same-generators: the replay in the next run draws from generators constructed anew in that process; their tables are the same only if construction is deterministic (no map iteration, no nondeterminism source in the constructors) (shared with C07-R8)", ruleConstructionCensus},
 			{"C06-R6", "saved-is-reported: captureTestOutput/saveFailFile/final replay use doCheck's buffer (#5) and seed (#3); saved iff failfile == \"\" && !nofailfile; target failFileName(tb.Name())", func(r *Run) { ruleC01R1(r); ruleC06R6(r) }},
 		},
 	}
@@ -583,6 +585,18 @@ func ruleC06R2(r *Run) {
 		for _, a := range p.alternatives(p.res(ret, 0), 0) {
 			nA++
 			ax := p.expr(a.Val)
+			// name + suffix with the suffix "" or "_" on every path
+			if bo, isBo := p.resolve(a.Val).(*ssa.BinOp); isBo && bo.Op == token.ADD {
+				okSuffix := true
+				for _, sa := range p.alternatives(bo.Y, 0) {
+					if c, isC := constString(p.resolve(sa.Val)); !isC || (c != "" && c != "_") {
+						okSuffix = false
+					}
+				}
+				if okSuffix {
+					ax = p.expr(bo.X)
+				}
+			}
 			okA := false
 			for m := range mapped {
 				if ax == m || ax == "("+m+" + \"_\")" {
@@ -820,7 +834,19 @@ func ruleC06R5(r *Run) {
 	}
 	// find the append of matches
 	for _, ap := range p.callsTo(dc, "builtin:append") {
-		if p.same(ap.Common.Args[1], extractOr(gl.Value(), 0)) {
+		// the appended matches: the glob result (or, glob disabled, nothing)
+		isMatches := false
+		okAlts := true
+		for _, a := range p.alternatives(ap.Common.Args[1], 0) {
+			switch {
+			case p.same(a.Val, extractOr(gl.Value(), 0)):
+				isMatches = true
+			case p.isEmptySlice(a.Val):
+			default:
+				okAlts = false
+			}
+		}
+		if isMatches && okAlts {
 			base := p.resolve(ap.Common.Args[0])
 			listDesc = p.expr(base)
 			// the list the matches are appended to: on some path exactly [failfile] ({failfile} literal or append(nil, failfile))
@@ -845,6 +871,85 @@ func ruleC06R5(r *Run) {
 						listDesc += " (not under failfile != \"\")"
 					}
 				}
+			}
+		}
+	}
+	// the same list built by index: L := make([]string, e+len(matches)) with e = 1 iff failfile != "", L[0] = failfile
+	// under that condition, copy(L[e:], matches)
+	if !okOrder {
+		for _, cp := range p.callsTo(dc, "builtin:copy") {
+			okSrc, isM := true, false
+			for _, a := range p.alternatives(cp.Common.Args[1], 0) {
+				switch {
+				case p.same(a.Val, extractOr(gl.Value(), 0)):
+					isM = true
+				case p.isEmptySlice(a.Val):
+				default:
+					okSrc = false
+				}
+			}
+			dst, isSl := p.resolve(cp.Common.Args[0]).(*ssa.Slice)
+			if !okSrc || !isM || !isSl || dst.Low == nil || dst.High != nil {
+				continue
+			}
+			mk, isMk := p.resolve(dst.X).(*ssa.MakeSlice)
+			e, isPhi := p.resolve(dst.Low).(*ssa.Phi)
+			if !isMk || !isPhi {
+				continue
+			}
+			// e is 1 exactly under failfile != ""
+			okE := len(e.Edges) == 2
+			for i, ed := range e.Edges {
+				c, isC := constInt(p.resolve(ed))
+				pred := e.Block().Preds[i]
+				facts := p.facts(pred.Instrs[len(pred.Instrs)-1])
+				if iff, isIf := pred.Instrs[len(pred.Instrs)-1].(*ssa.If); isIf && pred.Succs[0] != pred.Succs[1] {
+					facts = append(append([]rel{}, facts...), p.relOf(guard{Cond: iff.Cond, Pol: pred.Succs[0] == e.Block()}))
+				}
+				switch {
+				case isC && c == 1 && holds(facts, "$failfile", "!=", `""`):
+				case isC && c == 0 && holds(facts, "$failfile", "==", `""`):
+				default:
+					okE = false
+				}
+			}
+			// len(L) = e + len(matches)
+			okLen := false
+			if sum, isSum := p.resolve(mk.Len).(*ssa.BinOp); isSum && sum.Op == token.ADD {
+				for _, xy := range [][2]ssa.Value{{sum.X, sum.Y}, {sum.Y, sum.X}} {
+					if p.resolve(xy[0]) == ssa.Value(e) {
+						if ln, isLen := p.resolve(xy[1]).(*ssa.Call); isLen && p.calleeKey(ln.Common()) == "builtin:len" && p.resolve(ln.Common().Args[0]) == p.resolve(cp.Common.Args[1]) {
+							okLen = true
+						}
+					}
+				}
+			}
+			// L[0] = failfile where e > 0
+			okFirst := false
+			for _, b := range p.body(dc) {
+				for _, in := range b.Instrs {
+					st, isSt := in.(*ssa.Store)
+					if !isSt {
+						continue
+					}
+					ia, isIA := st.Addr.(*ssa.IndexAddr)
+					if !isIA || p.resolve(ia.X) != ssa.Value(mk) {
+						continue
+					}
+					idx, isC := constInt(p.resolve(ia.Index))
+					f := p.facts(st)
+					if isC && idx == 0 && p.resolve(st.Val) == ssa.Value(paramNamed(dc, "failfile")) && (holds(f, p.expr(e), ">", "0") || holds(f, "$failfile", "!=", `""`)) && !reachable(cf.Instr, st, nil) {
+						okFirst = true
+					} else {
+						okE = false // any other store into the list
+					}
+				}
+			}
+			if okE && okLen && okFirst && p.resolve(rngBase(p, cf.Arg(1))) == ssa.Value(mk) && dominates(cp.Instr, cf.Instr) {
+				okOrder = true
+				listDesc = "indexed construction"
+			} else {
+				listDesc = fmt.Sprintf("indexed construction: count-is-1-iff-explicit=%v length=%v first=%v", okE, okLen, okFirst)
 			}
 		}
 	}
@@ -1042,6 +1147,21 @@ func ruleC17R1(r *Run) {
 			r.Fail(construct, cs.Instr.Pos(), "the error result of "+cs.Key+" is discarded: a malformed file is treated as valid data")
 			continue
 		}
+		// handed on as loadFailFile's own error result (`return fail(…)` of a local error constructor): propagated
+		forwarded := false
+		for _, ref := range *ev.Referrers() {
+			if ret, isRet := ref.(*ssa.Return); isRet && ret.Parent() == fn && errIdx < len(ret.Results) && ret.Results[errIdx] == ev {
+				forwarded = true
+			}
+			// (a function with defers spills its results into cells before running them)
+			if st, isSt := ref.(*ssa.Store); isSt && st.Val == ev && p.resultCellIndex(st.Addr, fn) == errIdx {
+				forwarded = true
+			}
+		}
+		if forwarded && len(*ev.Referrers()) == 1 {
+			r.OK(construct, cs.Instr.Pos(), "the error result is returned as loadFailFile's error")
+			continue
+		}
 		iff, pol := p.errorTest(ev, 0) // also through the return of a helper to the test at its call site
 		if iff == nil {
 			r.Fail(construct, cs.Instr.Pos(), "the error result of "+cs.Key+" is never tested")
@@ -1206,7 +1326,7 @@ func ruleC17R2(r *Run) {
 		})
 		r.Check("checkFailFile#ignore-return", ret.Pos(), !silent, "this ignore path logs before returning nothing", "checkFailFile ignores a fail file on this path without a log line")
 	}
-	r.Floor("ignore returns of checkFailFile", n, 4)
+	r.Floor("ignore returns of checkFailFile", n, 2)
 	// the reproducing return: err1 non-nil and not invalid data
 	cos := p.callsTo(fn, "checkOnce")
 	if len(cos) >= 1 {
@@ -1461,6 +1581,39 @@ func (p *Program) safeRuneLits(lits []string, ex string, depth int) bool {
 func isAppendPhi(p *Program, v ssa.Value, want string) bool {
 	ph, ok := p.resolve(v).(*ssa.Phi)
 	if !ok {
+		// the same accumulation through a cell (a named result in a function with defers is not promoted to a phi):
+		// some store is append(<the cell>, … want …), every other store writes nil / an empty slice
+		if ld, isLoad := p.resolve(v).(*ssa.UnOp); isLoad && ld.Op == token.MUL {
+			if a, isAlloc := ld.X.(*ssa.Alloc); isAlloc && a.Referrers() != nil {
+				found, okAll := false, true
+				for _, ref := range *a.Referrers() {
+					st, isSt := ref.(*ssa.Store)
+					if !isSt {
+						continue
+					}
+					if st.Addr != ssa.Value(a) {
+						okAll = false
+						continue
+					}
+					if c, ok := p.resolve(st.Val).(*ssa.Call); ok && p.calleeKey(c.Common()) == "builtin:append" {
+						if l2, ok := p.resolve(c.Common().Args[0]).(*ssa.UnOp); ok && l2.X == ssa.Value(a) {
+							for _, x := range p.variadicArgs(c.Common().Args[1]) {
+								if x != nil && strings.Contains(p.expr(x), want) {
+									found = true
+								}
+							}
+							continue
+						}
+					}
+					if !p.isEmptySlice(st.Val) {
+						if l2, ok := st.Val.(*ssa.UnOp); !ok || l2.X != ssa.Value(a) {
+							okAll = false
+						}
+					}
+				}
+				return found && okAll
+			}
+		}
 		return false
 	}
 	found := false
@@ -1538,4 +1691,14 @@ func ruleC16R7(r *Run) {
 			r.Fail("checkTB#save-once.loop", saves[0].Instr.Pos(), "saveFailFile is called in a loop")
 		}
 	}
+}
+
+// rngBase: the slice an element value (x[i]) is read from.
+func rngBase(p *Program, v ssa.Value) ssa.Value {
+	if u, ok := p.resolve(v).(*ssa.UnOp); ok && u.Op == token.MUL {
+		if ia, ok := u.X.(*ssa.IndexAddr); ok {
+			return ia.X
+		}
+	}
+	return v
 }
